@@ -250,6 +250,27 @@ def sig_fields(kind):
             res2 = r2.result()
             obls += res2['obligations']
             funcs += res2['funcs']
+            # C01 ('the signature integers differ in any way => never a truthy verification'): an integer that does not fit 32 octets is never
+            # reduced to 32 octets - what reaches the verifier is then not a 64-octet signature (seeded change C01-13 kept the low 32 octets)
+            for wide in ('R', 'S'):
+                r3 = scn.Run(repo, cls, '__sig__', label + '[__sig__,%s wider than 32 octets]' % wide)
+                ex, st = r3.ex, r3.st
+                R3, S3 = z3.Ints('R S')
+                big, small = (R3, S3) if wide == 'R' else (S3, R3)
+                st.pc += [big >= 2 ** 256, big < 2 ** 264, small >= 0, small < 2 ** 256]
+                r3.set('sig', 'r', E.VInt(R3, enum='pgpy.packet.types.MPI'))
+                r3.set('sig', 's', E.VInt(S3, enum='pgpy.packet.types.MPI'))
+                ex.bl_extra = (256, 264)
+                r3.hook('pgpy.constants.EllipticCurveOID', 'Ed25519', scn.const(ED))
+                ex.hooks[('ext:OID.Ed25519', 'key_size')] = h
+                for pi, (s, v) in enumerate(r3.call(E.VObj(cls, 'sig'), [])):
+                    paths += 1
+                    if isinstance(v, E.Raise):
+                        continue                                  # refusing is allowed
+                    r3.oblige(s, 'over-wide-integer-is-not-reduced:the-verifier-does-not-get-64-octets/p%d' % pi, z3.Length(ex.seq(v, s)) != 64)
+                res3 = r3.result()
+                obls += res3['obligations']
+                funcs += res3['funcs']
         return {'obligations': obls, 'funcs': funcs, 'paths': paths}
     return Scenario(label, cls, gen, props=('C02', 'C01'))
 
